@@ -21,6 +21,7 @@ RULE = ('every non-mutator in the function table x typed argument templates (lis
         'ill-typed argument tuples (an exception must not have mutated anything either). Non-trivial = a non-mutator window whose arguments contained a container and whose '
         'fingerprints were compared; distinct = distinct (source | direct call description).')
 RULE += ' Host containers include proper subclasses of list and dict and a defaultdict (whose own index read inserts: not judged).'
+RULE += " One more workload: the repository's own test-suite, run in a worker process against the sandbox copy with this check's monitors installed (the tests' assertions are not the oracle, the monitors are)."
 ASSUMPTIONS = ['mutators = push, pop, insert, remove, __setitem__, __setitem_with_op__, __delitem__ (index assignment, compound index assignment, del); everything else in the table is a non-mutator',
                'a window inside which a mutator or a host callback ran is excluded from the judgement (counted); the workload keeps those below 20 % of windows',
                'fingerprint = container identity + ordered element fingerprints (dict: ordered key/value pairs); scalars by type and repr']
